@@ -412,23 +412,29 @@ func makeLineFilter(src, varname string, op token.Token, rhsVarname string) filt
 
 func makeObjectIsVariadicParamFilter(src, varname string) filterFunc {
 	return func(params *filterParams) matchFilterResult {
-		if params.currentFunc == nil {
-			return filterFailure(src)
-		}
-		funcObj, ok := params.ctx.Types.ObjectOf(params.currentFunc.Name).(*types.Func)
-		if !ok {
-			return filterFailure(src)
-		}
-		funcSig := funcObj.Type().(*types.Signature)
-		if !funcSig.Variadic() {
-			return filterFailure(src)
-		}
-		paramObj := funcSig.Params().At(funcSig.Params().Len() - 1)
 		obj := params.ctx.Types.ObjectOf(identOf(params.subExpr(varname)))
-		if paramObj != obj {
+		if obj == nil {
 			return filterFailure(src)
 		}
-		return filterSuccess
+		// A parameter is in scope inside its function only, so that function is
+		// on the node path: the matched node itself (a pattern that matches a whole
+		// function declaration or literal) or a function around it.
+		for i := 0; i < params.nodePath.Len(); i++ {
+			var funcSig *types.Signature
+			switch n := params.nodePath.NthParent(i).(type) {
+			case *ast.FuncDecl:
+				funcSig, _ = params.ctx.Types.TypeOf(n.Name).(*types.Signature)
+			case *ast.FuncLit:
+				funcSig, _ = params.ctx.Types.TypeOf(n.Type).(*types.Signature)
+			}
+			if funcSig == nil || !funcSig.Variadic() {
+				continue
+			}
+			if funcSig.Params().At(funcSig.Params().Len()-1) == obj {
+				return filterSuccess
+			}
+		}
+		return filterFailure(src)
 	}
 }
 
